@@ -101,6 +101,18 @@ class _FakeOS:
         self.rename = fs.remover("rename")
         self.replace = fs.remover("replace")
 
+    def open(self, path, flags, mode=0o777, **k):
+        # low-level open: modelled as the mode string it amounts to ('x' exclusive create, 'w' truncating, '+' in-place update without truncation)
+        if flags & (_os.O_WRONLY | _os.O_RDWR | _os.O_CREAT | _os.O_TRUNC | _os.O_APPEND):
+            if (flags & _os.O_EXCL) and self._fs.existing(str(path)):
+                raise FileExistsError(str(path))
+            kind = "a" if flags & _os.O_APPEND else "w" if (flags & _os.O_TRUNC or not self._fs.existing(str(path))) else "r+"
+            self._fs.log.append(("os.open", str(path), kind))
+        return 3
+
+    def fdopen(self, fd, *a, **k):
+        return _Sink()
+
     def __getattr__(self, n):
         return getattr(_os, n)
 
@@ -324,6 +336,31 @@ def save_passes_flag(ext: int, force: bool, multi: bool) -> bool:
     if EXTS[ext] in (".ncrst", ".rst7") and multi:
         return [c[0] for c in calls] == ["%s.%d" % (name, i + 1) for i in range(3)]
     return [c[0] for c in calls] == [name]
+
+
+_SAVERS = ["save_hdf5", "save_lammpstrj", "save_xyz", "save_pdb", "save_xtc", "save_trr", "save_dcd", "save_dtr", "save_mdcrd", "save_netcdf", "save_netcdfrst", "save_amberrst7", "save_lh5", "save_gro"]
+
+
+def save_positional_flag(which: int, force: bool) -> bool:
+    """
+    pre: 0 <= which < 14
+    post: __return__
+    """
+    # every save_<fmt>(filename, force_overwrite) documents force_overwrite as its SECOND parameter (save_hdf5: third, after mode):
+    # a positional call must reach the file class as force_overwrite, nothing else
+    which = conc(which, 0, 13)
+    _Rec.calls = []
+    _Rec.fs = None
+    for c in _SAVE_CLASSES:
+        setattr(_tr, c, _Rec)
+    name = "out.bin"
+    fn = getattr(_T1, _SAVERS[which])
+    if _SAVERS[which] == "save_hdf5":
+        fn(name, "w", force)
+    else:
+        fn(name, force)
+    calls = _Rec.calls
+    return bool(calls) and all(c[1] == "w" and c[2] is force for c in calls)
 
 
 def save_restart_no_clobber(which: bool, n: int, e1: bool, e2: bool, e3: bool) -> bool:
